@@ -580,6 +580,18 @@ class CallMixin:
     # ---- attribute calls --------------------------------------------------------------------------------
     def call_attr(self, f, node, st):
         attr = f.attr
+        # os.path.basename(p): uninterpreted, with the one fact every path satisfies (the base name is a suffix of the path)
+        if attr == "basename" and isinstance(f.value, ast.Attribute) and f.value.attr == "path" and isinstance(f.value.value, ast.Name) \
+                and f.value.value.id == "os" and "os" not in st.vars and len(node.args) == 1:
+            v = self.unopt(self.ev(node.args[0], st), node, st)
+            if not isinstance(v, VStr):
+                self.unsupported(node, "os.path.basename of %s" % v.ty)
+            if not hasattr(self, "_py_basename"):
+                self._py_basename = z3.Function("py_os_path_basename", z3.StringSort(), z3.StringSort())
+            b = self._py_basename(v.t)
+            st.assume(z3.SuffixOf(b, v.t))
+            self.trusted_axioms.add("os.path.basename(p): uninterpreted; a suffix of p")
+            return VStr(b)
         # Enum classmethods / class-level helpers: EnumCls.method(...)
         if isinstance(f.value, ast.Name) and f.value.id not in st.vars and f.value.id not in st.alias:
             root = f.value.id
@@ -859,6 +871,11 @@ class CallMixin:
             return VStr(u)
         if attr == "decode":
             return self.bytes_decode(s, node, st)
+        if attr == "encode" and len(args) + len(kw) <= 1:
+            # same codec model as bytearray(s, encoding=...): the module constant ENCODING is the only codec the repository uses
+            r = self.bytes_of(s)
+            self.flush_pending(st)
+            return r
         if attr == "split" and len(args) == 1 and isinstance(args[0], VStr):
             # axiomatised: len == 1 iff the delimiter does not occur; the last piece is the suffix after the last occurrence
             d = args[0]
